@@ -70,4 +70,117 @@ Section PromiseProofs.
   Proof.
     unfold res_ok. destruct o; auto. intros M [(w & H1 & H2)|H]; [left; exists w; auto|right; exact H].
   Qed.
+
+  Ltac ppc_norm :=
+    match goal with
+    | E : p_ops ?th = ?o :: _, E0 : pcur ?th = _ |- _ =>
+        let Hpc := fresh "Hpc" in
+        unfold pcur in E0; rewrite E in E0;
+        destruct (p_pc th) eqn:Hpc; try discriminate E0;
+        [ unfold pentry in E0;
+          repeat match type of E0 with
+                 | context [match ?x with _ => _ end] => is_var x; destruct x
+                 end; try discriminate E0
+        | inversion E0; subst; clear E0 .. ]
+    end.
+
+  (** what a step does to the threads that do not take it: only the notified flag may change *)
+  Lemma pstep_other s t a s' u :
+    pstep t a s = Some s' -> u <> t ->
+    p_pc (pthr s' u) = p_pc (pthr s u) /\ p_ops (pthr s' u) = p_ops (pthr s u)
+    /\ p_done (pthr s' u) = p_done (pthr s u) /\ p_got (pthr s' u) = p_got (pthr s u).
+  Proof.
+    intros H Hu. unfold Promise.pstep, pset, pset_ev in H.
+    repeat match type of H with
+           | context [match ?x with _ => _ end] =>
+               let E := fresh "E" in destruct x eqn:E; try discriminate
+           end;
+    inversion H; subst; clear H; simpl; try (rewrite (pupd_other _ _ _ _ Hu); auto).
+    apply Nat.eqb_neq in Hu. rewrite Hu. destruct (p_pc (pthr s u)) eqn:Hp; simpl; auto.
+  Qed.
+
+  Lemma PIv_step s t a s' : PIv s -> pstep t a s = Some s' -> PIv s'.
+  Proof.
+    intros I H.
+    assert (Oth : forall u, u <> t ->
+              p_pc (pthr s' u) = p_pc (pthr s u) /\ p_ops (pthr s' u) = p_ops (pthr s u)
+              /\ p_done (pthr s' u) = p_done (pthr s u) /\ p_got (pthr s' u) = p_got (pthr s u))
+      by (intros u Hu; eapply pstep_other; eauto).
+    unfold Promise.pstep, pset, pset_ev in H.
+    repeat match type of H with
+           | context [match ?x with _ => _ end] =>
+               let E := fresh "E" in destruct x eqn:E; try discriminate
+           end;
+    inversion H; subst; clear H; ppc_norm.
+    all: pose proof (pi_lock s I t) as Lk;
+      match goal with Hp : p_pc _ = _ |- _ => rewrite Hp in Lk end; simpl in Lk.
+    all: assert (NotIn : forall u, u <> t -> plock s = Some t -> in_pcs (p_pc (pthr s u)) = false)
+      by (intros u Hu Hq; destruct (in_pcs (p_pc (pthr s u))) eqn:Hq'; [|reflexivity];
+          apply (pi_lock s I u) in Hq'; congruence).
+    all: assert (PstEq : forall e, pst (mkPS (delivered s) (pvalue s) (plock s) (e :: phist s) (pthr s))
+                                   = pnext veq (pst s) e)
+      by (intro e; unfold pst; simpl; apply plog_snoc).
+    all: assert (NoVVal : plock s = Some t -> p_pc (pthr s t) <> VVal -> forall u, p_pc (pthr s u) <> VVal)
+      by (intros Hq Hne u; destruct (Nat.eq_dec u t) as [->|Hu]; [exact Hne|];
+          intro X; pose proof (NotIn u Hu Hq) as Y; rewrite X in Y; discriminate).
+    all: match goal with |- PIv ?s' =>
+           assert (Mono : forall w, pst s = Some (Some w) -> pst s' = Some (Some w)) end;
+      [ intros w Hw; unfold pst in *; simpl;
+        first [ exact Hw
+              | rewrite plog_snoc, Hw; simpl;
+                first [ reflexivity
+                      | (* EValue (pvalue s) *)
+                        assert (Hd : delivered s = true) by (apply (pi_del s I t); auto);
+                        destruct (pi_st1 s I Hd) as (w' & W1 & W2 & _); unfold pst in W1;
+                        assert (w' = w) by congruence; subst w';
+                        rewrite (W2 (NoVVal ltac:(apply Lk; reflexivity) ltac:(congruence))), veq_refl; reflexivity
+                      | (* delivered s = false: no value yet *)
+                        exfalso;
+                        assert (Hd : delivered s = false) by first [assumption | apply (pi_flag s I t); assumption];
+                        pose proof (pi_st0 s I Hd) as Z; unfold pst in Z; congruence
+                      | match goal with X : delivered _ = true |- _ => rewrite X end; reflexivity ] ]
+      | ].
+    all: constructor; simpl.
+    (* lock <-> program point *)
+    all: try (intro u; destruct (Nat.eq_dec u t) as [->|Hu];
+              [ rewrite ?pupd_same, ?Nat.eqb_refl; simpl; intuition (try congruence)
+              | destruct (Oth u Hu) as (Op & _); simpl in Op; rewrite Op;
+                first [ exact (pi_lock s I u)
+                      | pose proof (pi_lock s I u) as Lu; simpl in *;
+                        try (assert (plock s = Some t) as Hl by (apply Lk; reflexivity); rewrite Hl in * );
+                        split; intro X; [apply Lu in X; congruence | try congruence; apply Lu; congruence] ] ]; fail).
+    (* pst is unchanged when the history is *)
+    all: try (unfold pst at 1; simpl; fold (pst s)).
+    (* pi_flag *)
+    all: try (intro u; destruct (Nat.eq_dec u t) as [->|Hu];
+              [ rewrite ?pupd_same, ?Nat.eqb_refl; simpl; intro X; first [discriminate X | assumption | congruence]
+              | destruct (Oth u Hu) as (Op & _); simpl in Op; rewrite Op; exact (pi_flag s I u) ]; fail).
+    (* pi_del *)
+    all: try (intro u; destruct (Nat.eq_dec u t) as [->|Hu];
+              [ rewrite ?pupd_same, ?Nat.eqb_refl; simpl; intros [X|[X|X]];
+                first [discriminate X | assumption | congruence | reflexivity]
+              | destruct (Oth u Hu) as (Op & _); simpl in Op; rewrite Op;
+                first [ exact (pi_del s I u) | intros _; reflexivity ] ]; fail).
+    (* pi_st0 *)
+    all: try exact (pi_st0 s I).
+    (* pi_st1, history/value unchanged, no VVal involved *)
+    all: try (intro Hd; destruct (pi_st1 s I Hd) as (w & W1 & W2 & W3); exists w; split; [exact W1|split];
+              [ intro Hn; apply W2; intro u; destruct (Nat.eq_dec u t) as [->|Hu];
+                [ match goal with Hp : p_pc _ = _ |- _ => rewrite Hp end; discriminate
+                | specialize (Hn u); destruct (Oth u Hu) as (Op & _); simpl in Op; rewrite Op in Hn; exact Hn ]
+              | intro u; destruct (Nat.eq_dec u t) as [->|Hu];
+                [ rewrite ?pupd_same, ?Nat.eqb_refl; simpl; intro X; discriminate X
+                | destruct (Oth u Hu) as (Op & Oo & _); simpl in Op, Oo; rewrite Op, Oo; exact (W3 u) ] ]; fail).
+    (* results of the other threads and of this one when nothing is added *)
+    all: try (intros u o v0; destruct (Nat.eq_dec u t) as [->|Hu];
+              [ rewrite ?pupd_same, ?Nat.eqb_refl; simpl; intro X;
+                apply (res_ok_mono s); [exact Mono|]; exact (pi_done s I t o v0 X)
+              | destruct (Oth u Hu) as (_ & _ & Od & _); simpl in Od; rewrite Od; intro X;
+                apply (res_ok_mono s); [exact Mono|]; exact (pi_done s I u o v0 X) ]; fail).
+    all: try (intros u o rest; destruct (Nat.eq_dec u t) as [->|Hu];
+              [ rewrite ?pupd_same, ?Nat.eqb_refl; simpl; intro X; discriminate X
+              | destruct (Oth u Hu) as (Op & Oo & _ & Og); simpl in Op, Oo, Og; rewrite Op, Oo, Og; intros X Y;
+                apply (res_ok_mono s); [exact Mono|]; exact (pi_got s I u o rest X Y) ]; fail).
+    all: idtac.
+  Abort.
 End PromiseProofs.
